@@ -744,10 +744,14 @@ fn check_c18(tier: Tier, seed: u64) -> i32 {
     };
     let mut out = comp::sweep_c18(seed, exh, sampled);
     let draws_wide: u64 = match tier { Tier::Quick => 4_300_000_000, Tier::Thorough => 60_000_000_000 };
-    let hunt = comp::prng_boundary_hunt(seed, std::env::var("PFSIM_HUNT").ok().and_then(|s| s.parse().ok()).unwrap_or(draws_wide), &mut out.stats);
+    let mut hunt = comp::prng_boundary_hunt(seed, std::env::var("PFSIM_HUNT").ok().and_then(|s| s.parse().ok()).unwrap_or(draws_wide), &mut out.stats);
+    if hunt.is_empty() {
+        let words: u64 = std::env::var("PFSIM_WORDS").ok().and_then(|s| s.parse().ok()).unwrap_or(match tier { Tier::Quick => 1 << 35, Tier::Thorough => 1 << 38 });
+        hunt = comp::extreme_word_hunt(seed, words, &mut out.stats);
+    }
     out.found.extend(hunt);
     finish_comp("C18", tier, seed, out, &known, t0,
-        "comp scenario: every EntropySource method x argument grid {0,1,2,3,255,256,257,65535,65536,2^32,MAX-1,MAX} x ALL fuzzer scripts of length 0..2 (single draws), plus sampled scripts of length 3..16 at every cut with sequences of 1..6 draws, plus sampled PRNG seeds, plus a PRNG-side boundary hunt (gen_range on real ChaCha8 sources: enough draws per span — 4.3e9 (quick) or 6e10 (thorough) per span around 2^32 — that an inclusive upper bound would be produced several times); non-trivial = the script is shorter than the draws need (short read / exhaustion fired); distinct (case, results)",
+        "comp scenario: every EntropySource method x argument grid {0,1,2,3,255,256,257,65535,65536,2^32,MAX-1,MAX} x ALL fuzzer scripts of length 0..2 (single draws), plus sampled scripts of length 3..16 at every cut with sequences of 1..6 draws, plus sampled PRNG seeds, plus a PRNG-side boundary hunt (gen_range on real ChaCha8 sources: enough draws per span — 4.3e9 (quick) or 6e10 (thorough) per span around 2^32 — that an inclusive upper bound would be produced several times; seeded spans in every magnitude class), plus an extreme-word hunt (2^35 quick / 2^38 thorough ChaCha8 words scanned for all-ones / zero / sign-boundary values, every bounded method x 27 spans executed on a generator positioned at each such word); non-trivial = the script is shorter than the draws need (short read / exhaustion fired); distinct (case, results)",
         true)
 }
 
@@ -874,6 +878,17 @@ fn check_solo_family(prop: &str, tier: Tier, seed: u64) -> i32 {
             "depth_objects_vocabulary": d1, "depth_containers_vocabulary": d2, "stride": stride});
         tree_found.extend(co.found);
     }
+    // C01 / C03 / C17: anomaly-directed exploration of the GLOBAL table
+    let mut explore_info = json!(null);
+    if prop == "C01" || prop == "C03" || prop == "C17" {
+        let eo = edge::table_explore(spec.prop, &known, &mut stats);
+        stats.evaluations += eo.runs + eo.deep_runs;
+        stats.add("edge.table_explore.runs", eo.runs);
+        stats.add("edge.table_explore.deep_runs_on_anomalous_entries", eo.deep_runs);
+        explore_info = json!({"table_entries": eo.entries, "level_1_runs": eo.runs, "distinct_menus": eo.menus, "anomalous_entries": eo.anomalous_entries, "deep_runs": eo.deep_runs,
+            "note": "every GLOBAL table entry x 3 consumer programs x every next choice byte, judged; entries whose menu of next opcodes differs from the modal menu are explored 2-3 choices deeper"});
+        tree_found.extend(eo.found);
+    }
     // C14 soak leg: long-lived generators (one per protocol, each on its own measuring thread)
     let mut soak_found: Vec<props::Violation> = vec![];
     if prop == "C14" {
@@ -997,6 +1012,7 @@ fn check_solo_family(prop: &str, tier: Tier, seed: u64) -> i32 {
             "decision_tree_enumeration": tree_info,
             "model_based_program_synthesis": synth_info,
             "model_based_state_cover": cover_info,
+            "table_exploration": explore_info,
             "cpython_cross_check": {"available": rep.available, "compared": rep.compared, "hard_disagreements": rep.hard.len(), "soft_disagreements_on_damaged_inputs": rep.soft.len()},
         }),
         assumptions: engine::default_assumptions(),
@@ -1245,7 +1261,26 @@ fn run_replay(path: &str) -> i32 {
 fn run_digest(idx: u64) -> u64 {
     let specs = ["C17", "C04", "C08"];
     let spec = engine::solo_spec(specs[(idx % 3) as usize]).unwrap();
-    let sc = engine::draw_for(&spec, 12345, Tier::Quick, idx);
+    // three quarters seeded runs, one quarter directed runs of every region of the layout
+    // (extremal / wide / pair-deep, long-lived generators, enumerations, boundary-directed)
+    let runs = spec.runs_quick;
+    let sc = if idx % 4 != 3 {
+        engine::draw_for(&spec, 12345, Tier::Quick, idx)
+    } else {
+        let j = desc::mix64(idx);
+        let deep = engine::deep_count(&spec, Tier::Quick);
+        let edge = engine::edge_count(&spec, Tier::Quick);
+        let soak = engine::soak_count(&spec, Tier::Quick);
+        let en = engine::enum_count(&spec, Tier::Quick);
+        let i = match (idx / 4) % 4 {
+            0 if deep > edge => runs + j % (deep - edge),
+            1 if soak > 0 => runs + deep + j % soak,
+            2 if en > 0 => runs + deep + soak + j % en,
+            _ if edge > 0 => runs + (deep - edge) + j % edge,
+            _ => idx,
+        };
+        engine::scenario_of(&spec, 12345, Tier::Quick, i, runs)
+    };
     let recs = exec::run_scenario(&sc, engine::trace_for(&spec, &sc), spec.spy);
     let mut d = desc::digest(sc.to_json().to_string().as_bytes());
     for r in &recs {
